@@ -8,6 +8,8 @@ use vstd::prelude::*;
 use std::borrow::Borrow;
 use std::cmp::Ordering;
 use vstd::std_specs::cmp::{PartialEqSpec, PartialOrdSpec, OrdSpec};
+use vstd::std_specs::ops::{AddSpec, ShrSpec, ShlSpec};
+use vstd::std_specs::convert::FromSpec;
 //@recursor file=crates/oxidd-rules-zbdd/src/recursor.rs
 verus! {
 
@@ -425,13 +427,22 @@ pub proof fn lemma_cube_lit_above(c: Tree, l: int)
     requires l < top(c),
     ensures cube_lit(c, l) == Lit::Neg,
 {}
-/// negative literal at `level` (the cube has no node there): descend with the variable forced to false
-pub broadcast proof fn lemma_cenv_neg(c: Tree, level: int, n: int, s: Env)
-    requires level < top(c), level < n,
-    ensures #[trigger] cenv(c, level, n, s) == cenv(c, level + 1, n, upd(s, level, false)), !cenv(c, level, n, s)(level),
+/// negative literal at `level` (the cube has no node there): descend with the variable forced to false.
+/// (Both lemmas rewrite the level+1 form, which the callee's postcondition supplies, to the level form and create no
+/// deeper terms: a lemma `cenv(c, l, ..) == cenv(c, l+1, ..)` triggered on its left side would be a matching loop.)
+pub broadcast proof fn lemma_cenv_neg(c: Tree, level: int, l1: int, n: int, s: Env)
+    requires level < top(c), level < n, l1 == level + 1,
+    ensures #[trigger] cenv(c, l1, n, upd(s, level, false)) == cenv(c, level, n, s), !cenv(c, level, n, s)(level),
 {
     lemma_cube_lit_above(c, level);
-    assert(cenv(c, level, n, s) =~= cenv(c, level + 1, n, upd(s, level, false)));
+    assert(cenv(c, level, n, s) =~= cenv(c, l1, n, upd(s, level, false)));
+}
+pub broadcast proof fn lemma_cenv_neg0(c: Tree, level: int, l1: int, n: int, s: Env)
+    requires level < top(c), level < n, l1 == level + 1, !s(level),
+    ensures #[trigger] cenv(c, l1, n, s) == #[trigger] cenv(c, level, n, s),
+{
+    lemma_cube_lit_above(c, level);
+    assert(cenv(c, level, n, s) =~= cenv(c, l1, n, s));
 }
 /// node at `level`: below it the cube is its hi-child
 pub broadcast proof fn lemma_cenv_node(k: u32, a: Tree, b: Tree, n: int, s: Env)
@@ -461,7 +472,7 @@ pub broadcast proof fn lemma_cenv_boolean(c: Tree, n: int, env: Env)
 {
     assert(cenv(c, 0, n, set_of(env, n)) =~= set_of(cube_env(c, env), n));
 }
-pub broadcast group restrict_lemmas { lemma_is_cube_mk, lemma_cube_lit_mk, lemma_cenv_neg, lemma_cenv_node, lemma_cenv_pos_above, lemma_cenv_boolean }
+pub broadcast group restrict_lemmas { lemma_is_cube_mk, lemma_cube_lit_mk, lemma_cenv_neg, lemma_cenv_neg0, lemma_cenv_node, lemma_cenv_pos_above, lemma_cenv_boolean }
 
 // ---------- cube picking (C13), ZBDD reading of a cube: see `is_cube` / `cube_lit` above ----------
 /// `r` is a cube picked from `t`: one decision per visited node.  Variable true: a node on the same level whose lo-child is ∅
@@ -791,6 +802,227 @@ pub broadcast proof fn lemma_bsem_sof(t: Tree, bits: Seq<bool>, n: int)
 }
 pub broadcast group eval_lemmas { lemma_eval_pre_mk, lemma_evalp_mk, lemma_evalp_leaf, lemma_evalp_top, lemma_bsem_sof }
 
+/// the reading of a cube used above is the documented one: the ZBDD `c` (over the n variables of the manager) denotes
+/// exactly the conjunction of its literals
+pub open spec fn lit_holds(c: Tree, l: int, env: Env) -> bool {
+    match cube_lit(c, l) { Lit::Neg => !env(l), Lit::Pos => env(l), Lit::DC => true }
+}
+pub proof fn lemma_cube_conj_ind(c: Tree, from: int, n: int, env: Env)
+    requires ok(c, n), is_cube(c), 0 <= from <= top(c),
+    ensures mem(c, from_lv(set_of(env, n), from)) == (forall|l: int| from <= l < n ==> #[trigger] lit_holds(c, l, env)),
+    decreases c,
+{
+    let s = from_lv(set_of(env, n), from);
+    match c {
+        Tree::Leaf(_) => {
+            if is_empty_set(s) { assert forall|l: int| from <= l < n implies #[trigger] lit_holds(c, l, env) by { assert(!s(l)); } }
+            if forall|l: int| from <= l < n ==> #[trigger] lit_holds(c, l, env) {
+                assert forall|i: int| !(#[trigger] s(i)) by { if s(i) { assert(lit_holds(c, i, env)); } }
+            }
+        }
+        Tree::Inner(k, a, b) => {
+            let kk = k as int;
+            let sk = from_lv(set_of(env, n), kk + 1);
+            lemma_cube_conj_ind(*a, kk + 1, n, env);
+            assert forall|l: int| l > kk implies lit_holds(c, l, env) == lit_holds(*a, l, env) by {}
+            if exists|l: int| from <= l < kk && #[trigger] env(l) {
+                let l = choose|l: int| from <= l < kk && #[trigger] env(l);
+                assert(s(l)); lemma_mem_above_ind(c, s, l);
+                assert(!lit_holds(c, l, env));
+            } else {
+                assert(forall|l: int| from <= l < kk ==> #[trigger] lit_holds(c, l, env));
+                if env(kk) {
+                    assert(s(kk));
+                    assert(upd(s, kk, false) =~= sk) by { assert forall|i: int| #[trigger] upd(s, kk, false)(i) == sk(i) by { if from <= i < kk { assert(!env(i)); } } }
+                    assert(lit_holds(c, kk, env));
+                } else {
+                    assert(!s(kk));
+                    assert(s =~= sk) by { assert forall|i: int| #[trigger] s(i) == sk(i) by { if from <= i < kk { assert(!env(i)); } } }
+                    if *a == *b { assert(lit_holds(c, kk, env)); } else { assert(!lit_holds(c, kk, env)); assert(*b == ee()); assert(!mem(ee(), s)); }
+                }
+                assert((forall|l: int| from <= l < n ==> #[trigger] lit_holds(c, l, env)) == (lit_holds(c, kk, env) && forall|l: int| kk + 1 <= l < n ==> #[trigger] lit_holds(*a, l, env))) by {
+                    if forall|l: int| from <= l < n ==> #[trigger] lit_holds(c, l, env) {
+                        assert(lit_holds(c, kk, env));
+                        assert forall|l: int| kk + 1 <= l < n implies #[trigger] lit_holds(*a, l, env) by { assert(lit_holds(c, l, env)); }
+                    }
+                    if lit_holds(c, kk, env) && forall|l: int| kk + 1 <= l < n ==> #[trigger] lit_holds(*a, l, env) {
+                        assert forall|l: int| from <= l < n implies #[trigger] lit_holds(c, l, env) by { if l > kk { assert(lit_holds(*a, l, env)); } }
+                    }
+                }
+            }
+        }
+    }
+}
+//@lemma name=cube_is_conjunction props=C04,C13
+pub proof fn cube_is_conjunction(c: Tree, n: int, env: Env)
+    requires ok(c, n), is_cube(c), 0 <= n,
+    ensures bsem(c, n, env) == (forall|l: int| 0 <= l < n ==> #[trigger] lit_holds(c, l, env)),
+{
+    lemma_cube_conj_ind(c, 0, n, env);
+    assert(from_lv(set_of(env, n), 0) =~= set_of(env, n)) by { assert forall|i: int| #[trigger] from_lv(set_of(env, n), 0)(i) == set_of(env, n)(i) by {} }
+}
+
+/// The contract ASSUMED for the nested `restrict_base` (its `for` loop cannot be given an invariant) is satisfiable: the
+/// following model of its result meets it.  (Guards against a vacuous assumption; it does not verify the loop.)
+pub open spec fn dc_chain(from: int, to: int, r: Tree) -> Tree decreases to - from {
+    if 0 <= from < to <= u32::MAX { mk(from as u32, dc_chain(from + 1, to, r), dc_chain(from + 1, to, r)) } else { r }
+}
+pub open spec fn rb_model(c: Tree, level: int, n: int) -> Tree decreases c {
+    match c {
+        Tree::Leaf(_) => taut_tree(level, n),
+        Tree::Inner(k, a, b) => if *a != *b { ee() } else {
+            let r = rb_model(*a, k as int + 1, n);
+            if r == ee() { ee() } else { dc_chain(level, k as int, r) }
+        },
+    }
+}
+pub open spec fn cleared(s: Env, from: int, to: int) -> Env { |l: int| if from <= l < to { false } else { s(l) } }
+pub proof fn lemma_dc_chain(from: int, to: int, r: Tree, n: int, s: Env)
+    requires 0 <= from <= to <= n <= u32::MAX, ok(r, n), top(r) >= to, r != ee(),
+    ensures ok(dc_chain(from, to, r), n), top(dc_chain(from, to, r)) >= from, dc_chain(from, to, r) != ee(),
+        mem(dc_chain(from, to, r), s) == mem(r, cleared(s, from, to)),
+    decreases to - from,
+{
+    if from < to {
+        let d = dc_chain(from + 1, to, r);
+        lemma_dc_chain(from + 1, to, r, n, s);
+        lemma_dc_chain(from + 1, to, r, n, upd(s, from, false));
+        assert(mem(dc_chain(from, to, r), s) == (if s(from) { mem(d, upd(s, from, false)) } else { mem(d, s) }));
+        assert(cleared(upd(s, from, false), from + 1, to) =~= cleared(s, from, to));
+        if !s(from) { assert(cleared(s, from + 1, to) =~= cleared(s, from, to)); }
+    } else {
+        assert(cleared(s, from, to) =~= s);
+    }
+}
+//@lemma name=restrict_base_contract_satisfiable props=C04
+pub proof fn restrict_base_contract_satisfiable(c: Tree, level: int, n: int)
+    requires ok(c, n), is_cube(c), 0 <= level <= top(c), level <= n <= u32::MAX,
+    ensures restrict_post(bb(), c, level, n, rb_model(c, level, n)),
+    decreases c,
+{
+    let r = rb_model(c, level, n);
+    match c {
+        Tree::Leaf(_) => {
+            lemma_taut_ok_ind(level, n);
+            assert forall|s: Env| #[trigger] mem(r, s) == mem(bb(), cenv(c, level, n, s)) by {
+                lemma_mem_taut_ind(level, n, s);
+                let x = cenv(c, level, n, s);
+                if within(s, level, n) { assert forall|i: int| !(#[trigger] x(i)) by { if s(i) {} } }
+                if is_empty_set(x) { assert forall|i: int| (#[trigger] s(i)) implies level <= i < n by { assert(!x(i)); } }
+            }
+        }
+        Tree::Inner(k, a, b) => {
+            let kk = k as int;
+            if *a != *b {
+                assert forall|s: Env| #[trigger] mem(r, s) == mem(bb(), cenv(c, level, n, s)) by { assert(cenv(c, level, n, s)(kk)); }
+            } else {
+                let r1 = rb_model(*a, kk + 1, n);
+                restrict_base_contract_satisfiable(*a, kk + 1, n);
+                assert forall|l: int| l > kk implies cube_lit(c, l) == cube_lit(*a, l) by {}
+                if r1 == ee() {
+                    assert forall|s: Env| #[trigger] mem(r, s) == mem(bb(), cenv(c, level, n, s)) by {
+                        let s1 = cleared(s, level, kk + 1);
+                        let x = cenv(c, level, n, s);
+                        let y = cenv(*a, kk + 1, n, s1);
+                        assert(mem(r1, s1) == mem(bb(), y));
+                        if is_empty_set(x) { assert forall|i: int| !(#[trigger] y(i)) by { assert(!x(i)); } }
+                    }
+                } else {
+                    assert forall|s: Env| #[trigger] mem(r, s) == mem(bb(), cenv(c, level, n, s)) by {
+                        lemma_dc_chain(level, kk, r1, n, s);
+                        let s1 = cleared(s, level, kk);
+                        assert(mem(r1, s1) == mem(bb(), cenv(*a, kk + 1, n, s1)));
+                        assert(cenv(*a, kk + 1, n, s1) =~= cenv(c, level, n, s));
+                    }
+                    lemma_dc_chain(level, kk, r1, n, |i: int| false);
+                }
+            }
+        }
+    }
+}
+
+// ---------- model counting (C12, ZBDD part) ----------
+pub open spec fn pow2(k: nat) -> int decreases k { if k == 0 { 1 } else { 2 * pow2((k - 1) as nat) } }
+/// abstract numeric value of a count
+pub trait NumView { spec fn nv(&self) -> int; }
+pub trait IsFloatingPoint { const MIN_EXP: i32; }
+pub trait SatCountNumber: Clone + From<u32> + std::ops::Add<Self, Output = Self> + std::ops::Shl<u32, Output = Self> + std::ops::Shr<u32, Output = Self> + IsFloatingPoint + NumView {}
+/// ASSUMED model of the number type: exact naturals, `>> k` is floor division by 2^k, `<< k` multiplication
+/// (same model as in bdd_simple.rs.tpl)
+pub open spec fn num_ok<N: SatCountNumber>() -> bool {
+    &&& N::obeys_add_spec()
+    &&& forall|a: N, b: N| #[trigger] a.add_req(b)
+    &&& forall|a: N, b: N| (#[trigger] a.add_spec(b)).nv() == a.nv() + b.nv()
+    &&& <N as ShrSpec<u32>>::obeys_shr_spec()
+    &&& forall|a: N, k: u32| #[trigger] a.shr_req(k)
+    &&& forall|a: N, k: u32| (#[trigger] a.shr_spec(k)).nv() == a.nv() / pow2(k as nat)
+    &&& <N as FromSpec<u32>>::obeys_from_spec()
+    &&& forall|v: u32| (#[trigger] <N as FromSpec<u32>>::from_spec(v)).nv() == v as int
+    &&& forall|a: N, b: N| cloned(a, b) ==> #[trigger] a.nv() == #[trigger] b.nv()
+}
+/// what the recursion computes: the number of member sets (paths to Base)
+pub open spec fn zcnt(t: Tree) -> int decreases t {
+    match t {
+        Tree::Leaf(b) => if b { 1 } else { 0 },
+        Tree::Inner(_, a, b) => zcnt(*a) + zcnt(*b),
+    }
+}
+pub broadcast proof fn lemma_zcnt_mk(l: u32, a: Tree, b: Tree)
+    ensures #[trigger] zcnt(mk(l, a, b)) == zcnt(a) + zcnt(b) {}
+pub open spec fn then_of(t: Tree) -> Tree { match t { Tree::Inner(_, a, _) => *a, _ => t } }
+pub open spec fn else_of(t: Tree) -> Tree { match t { Tree::Inner(_, _, b) => *b, _ => t } }
+/// number of assignments to the variables k..n-1 that satisfy `t` in the ZBDD reading (all levels of `t` are >= k), by
+/// expansion on every variable: a variable without a node must be false
+pub open spec fn zmodels(t: Tree, k: int, n: int) -> int decreases n - k {
+    if k >= n { if t == Tree::Leaf(true) { 1 } else { 0 } }
+    else if t is Inner && top(t) == k { zmodels(then_of(t), k + 1, n) + zmodels(else_of(t), k + 1, n) }
+    else { zmodels(t, k + 1, n) }
+}
+//@lemma name=lemma_zcnt_is_count props=C12
+pub proof fn lemma_zcnt_is_count(t: Tree, k: int, n: int)
+    requires ok(t, n), 0 <= k <= n <= u32::MAX, k <= top(t),
+    ensures zcnt(t) == zmodels(t, k, n),
+    decreases n - k,
+{
+    if k >= n { assert(t is Leaf); }
+    else if t is Inner && top(t) == k { lemma_zcnt_is_count(then_of(t), k + 1, n); lemma_zcnt_is_count(else_of(t), k + 1, n); }
+    else { lemma_zcnt_is_count(t, k + 1, n); }
+}
+pub broadcast proof fn lemma_zmodels_zcnt(t: Tree, n: int)
+    requires wf(t), below(t, n), 0 <= n <= u32::MAX,
+    ensures #[trigger] zmodels(t, 0, n) == zcnt(t),
+{ lemma_zcnt_is_count(t, 0, n); }
+pub broadcast group count_lemmas { lemma_zcnt_mk, lemma_zmodels_zcnt }
+pub type NodeID = usize;
+/// the diagram stored under a node id (ASSUMED: a node id denotes one diagram within a GC epoch; the cache is cleared
+/// by `clear_if_invalid` when the epoch or the variable count changes)
+pub uninterp spec fn tree_of(id: NodeID) -> Tree;
+/// stub of the HashMap inside SatCountCache
+pub struct NodeMap<N> { pub m: Ghost<Map<NodeID, N>> }
+impl<N> NodeMap<N> {
+    pub open spec fn view(&self) -> Map<NodeID, N> { self.m@ }
+    #[verifier::external_body]
+    pub fn get(&self, k: &NodeID) -> (r: Option<&N>)
+        ensures match r { Some(v) => self@.contains_key(*k) && *v == self@[*k], None => !self@.contains_key(*k) }
+    { unimplemented!() }
+    #[verifier::external_body]
+    pub fn insert(&mut self, k: NodeID, v: N) -> (r: Option<N>)
+        ensures final(self)@ == old(self)@.insert(k, v)
+    { unimplemented!() }
+}
+pub struct SatCountCache<N, S> { pub map: NodeMap<N>, pub cache_all: bool, pub s: Ghost<S> }
+impl<N: SatCountNumber, S> SatCountCache<N, S> {
+    /// ASSUMED (history): the cache is emptied when the GC epoch or the variable count changed; otherwise its entries were
+    /// computed in this epoch
+    #[verifier::external_body]
+    pub fn clear_if_invalid<M: Manager>(&mut self, manager: &M, vars: LevelNo)
+        ensures cache_valid(final(self)), final(self).cache_all == old(self).cache_all,
+    { unimplemented!() }
+}
+pub open spec fn cache_valid<N: SatCountNumber, S>(c: &SatCountCache<N, S>) -> bool {
+    forall|id: NodeID| #[trigger] c.map@.contains_key(id) ==> c.map@[id].nv() == zcnt(tree_of(id))
+}
+
 // ---------- environment stubs (ASSUMED manager contract) ----------
 pub type LevelNo = u32;
 pub type VarNo = u32;
@@ -805,6 +1037,7 @@ pub trait Edge: Sized + Ord {
     fn borrowed(&self) -> (r: Borrowed<'_, Self>) ensures r.view() == self.view();
     /// ZBDD edges carry no semantic tag
     fn with_tag_owned(self, tag: Self::Tag) -> (r: Self) ensures r.view() == self.view();
+    fn node_id(&self) -> (r: NodeID) ensures self.view() is Inner ==> tree_of(r) == self.view();
 }
 pub trait LevelSpec { spec fn level_spec(&self) -> u32; }
 pub trait InnerNode<E: Edge>: Sized + LevelSpec {
@@ -815,6 +1048,7 @@ pub trait InnerNode<E: Edge>: Sized + LevelSpec {
     fn child(&self, n: usize) -> (r: Borrowed<'_, E>)
         requires n < 2
         ensures r.view() == (if n == 0 { self.then_spec() } else { self.else_spec() });
+    fn ref_count(&self) -> usize;
 }
 pub trait HasLevel: LevelSpec {
     fn level(&self) -> (l: LevelNo) ensures l == self.level_spec();
@@ -1124,7 +1358,7 @@ broadcast use {leaf_lemmas, taut_lemmas};
     requires edge_ok::<M::Edge>(), ok(f.view(), manager.num_levels_spec()), ok(g.view(), manager.num_levels_spec()),
     ensures res is Ok ==> symm_diff_post(f.view(), g.view(), manager.num_levels_spec(), res->Ok_0.view()),
 //@end
-//@fn file=crates/oxidd-rules-zbdd/src/apply_rec.rs path=fn:apply_not nodecr props=C02,C06 vis=pub(crate)
+//@fn file=crates/oxidd-rules-zbdd/src/apply_rec.rs path=fn:apply_not nodecr props=C02 vis=pub(crate)
 //@spec
     requires edge_ok::<M::Edge>(), zcache_ok(manager), ok(f.view(), manager.num_levels_spec()),
     ensures res is Ok ==> not_post(f.view(), manager.num_levels_spec(), res->Ok_0.view()),
@@ -1399,7 +1633,52 @@ broadcast use {leaf_lemmas, pick_lemmas};
     ensures res is Ok ==> zpick_set_ok(edge.view(), literal_set.view(), res->Ok_0.view()) && ok(res->Ok_0.view(), manager.num_levels_spec()),
     decreases edge.view(),
 //@end
+//@fn file=crates/oxidd-rules-zbdd/src/apply_rec.rs path=impl:BooleanFunction~for~ZBDDFunction<F>/fn:pick_cube_dd_edge hoist=inner>pick_cube_dd_edge__inner props=C13
+//@header
+fn pick_cube_dd_edge<M>(manager: &M, edge: &M::Edge, choice: impl FnMut(&M, &M::Edge, LevelNo) -> bool) -> (res: AllocResult<M::Edge>)
+where M: Manager<Terminal = ZBDDTerminal> + HasApplyCache<M, ZBDDOp> + HasZBDDCache<M::Edge>, M::InnerNode: HasLevel,
+//@spec
+    requires edge_ok::<M::Edge>(), ok(edge.view(), manager.num_levels_spec()),
+        forall|mm: &M, e2: &M::Edge, l: LevelNo| (e2.view() matches Tree::Inner(k, a, b) && k == l && *b != ee() && *a != *b) ==> #[trigger] choice.requires((mm, e2, l)),
+    ensures res is Ok ==> zpick_ok(edge.view(), res->Ok_0.view()) && ok(res->Ok_0.view(), manager.num_levels_spec()),
+//@end
+//@fn file=crates/oxidd-rules-zbdd/src/apply_rec.rs path=impl:BooleanFunction~for~ZBDDFunction<F>/fn:pick_cube_dd_set_edge hoist=set_pop>pick_cube_dd_set_edge__set_pop,inner>pick_cube_dd_set_edge__inner props=C13
+//@header
+fn pick_cube_dd_set_edge<M>(manager: &M, edge: &M::Edge, literal_set: &M::Edge) -> (res: AllocResult<M::Edge>)
+where M: Manager<Terminal = ZBDDTerminal> + HasApplyCache<M, ZBDDOp> + HasZBDDCache<M::Edge>, M::InnerNode: HasLevel,
+//@spec
+    requires edge_ok::<M::Edge>(), ok(edge.view(), manager.num_levels_spec()), ok(literal_set.view(), manager.num_levels_spec()),
+    ensures res is Ok ==> zpick_set_ok(edge.view(), literal_set.view(), res->Ok_0.view()) && ok(res->Ok_0.view(), manager.num_levels_spec()),
+//@end
 } // mod apply_rec_p
+pub mod apply_rec_c {
+use super::*;
+broadcast use {leaf_lemmas, count_lemmas};
+//@fn file=crates/oxidd-rules-zbdd/src/apply_rec.rs path=impl:BooleanFunction~for~ZBDDFunction<F>/fn:sat_count_edge/fn:inner rename=sat_count_edge__inner expect=R13:1 props=C12
+//@header
+fn sat_count_edge__inner<M: Manager<Terminal = ZBDDTerminal>, N: SatCountNumber, S>(manager: &M, e: Borrowed<M::Edge>, cache: &mut SatCountCache<N, S>) -> (res: N)
+//@spec
+    requires num_ok::<N>(), wf(e.view()), cache_valid(old(cache)),
+    ensures res.nv() == zcnt(e.view()), cache_valid(final(cache)),
+    decreases e.view(),
+//@end
+// FINDING (see zbdd.REPORT.md, "Findings"): the unit below is DISABLED so that the bundle verifies with 0 errors.  Remove the
+// `//FINDING ` prefixes to enable it: it then yields exactly one refuted obligation, `possible arithmetic underflow/overflow`
+// at `manager.num_levels() - vars` (apply_rec.rs:961): nothing documented forbids vars > num_levels, the debug build panics
+// "attempt to subtract with overflow" and the release build returns 0 (native reproduction in the report).  With the extra
+// precondition `vars <= num_levels` the unit verifies.
+//FINDING //@fn file=crates/oxidd-rules-zbdd/src/apply_rec.rs path=impl:BooleanFunction~for~ZBDDFunction<F>/fn:sat_count_edge hoist=inner>sat_count_edge__inner props=C12
+//FINDING //@header
+//FINDING fn sat_count_edge<M: Manager<Terminal = ZBDDTerminal>, N: SatCountNumber, S>(manager: &M, edge: &M::Edge, vars: LevelNo, cache: &mut SatCountCache<N, S>) -> (res: N)
+//FINDING //@spec
+//FINDING     // no precondition relates `vars` to the number of levels: none is documented, and the property quantifies over vars > num_levels
+//FINDING     requires num_ok::<N>(), ok(edge.view(), manager.num_levels_spec()),
+//FINDING     // models over the manager's variables, scaled down when only the first `vars` variables are considered relevant
+//FINDING     // (for vars > num_levels the subtraction `num_levels() - vars` is already refuted as arithmetic underflow: FINDING)
+//FINDING     ensures (vars as int) <= manager.num_levels_spec() ==>
+//FINDING         res.nv() == zmodels(edge.view(), 0, manager.num_levels_spec()) / pow2((manager.num_levels_spec() - vars) as nat),
+//FINDING //@end
+} // mod apply_rec_c
 pub mod apply_rec_e {
 use super::*;
 broadcast use {leaf_lemmas, eval_lemmas};
